@@ -626,6 +626,9 @@ func (x *c18) runErrors() {
 		{"IOS", iosIntf("Ethernet0", "10.0.0.1"), core.Files{Main: iosBase, Raw: "foo bar\n"}, "unknown command"},
 		{"IOS", iosIntf("Ethernet0", "10.0.0.1"), core.Files{Main: iosBase, Raw: "ip access-list extended unbound\n permit ip any any\n"}, "object referenced by no anchor"},
 		{"IOS", iosIntf("Ethernet0", "10.0.0.1"), core.Files{Main: iosBase, Raw: "ip access-list extended inside_in\n permit ip any any\ninterface Ethernet0\n ip access-group inside_in out\n"}, "name clash"},
+		{"IOS", iosIntf("Ethernet0", "10.0.0.1"), core.Files{Main: iosBase, Raw: "ip access-list extended rawacl\n pemit tcp any any eq 22\n permit ip any any\ninterface Ethernet0\n ip access-group rawacl out\n"}, "unknown (mistyped) sub-command"},
+		{"IOS", iosIntf("Ethernet0", "10.0.0.1"), core.Files{Main: iosBase, Raw: "ip access-list extended rawacl\n permit tcp any any eq 22\n  permit tcp any any eq 23\ninterface Ethernet0\n ip access-group rawacl out\n"}, "sub-command indented one blank too deep"},
+		{"ASA", asaIntf, core.Files{Main: asaBase, Raw: "object-group network rg\n netwrk-object host 10.2.2.2\n network-object host 10.2.2.3\naccess-list rawacl extended permit ip object-group rg any4\naccess-group rawacl out interface inside\n"}, "unknown (mistyped) sub-command"},
 		{"Linux", "", core.Files{Main: "*filter\n:FORWARD DROP\nCOMMIT\n", Raw: "foo\n"}, "unknown command"},
 		{"PAN-OS", `<config><devices><entry name="localhost.localdomain"><vsys><entry name="vsys1"></entry></vsys></entry></devices></config>`,
 			core.Files{Main: "", Raw: `<config><devices><entry name="localhost.localdomain"><vsys><entry name="vsys1"><rulebase><security><rules><entry name="r1"><action>allow</action></entry></rules></security></rulebase></entry></vsys></entry></devices></config>`}, "forbidden rule name"},
